@@ -356,6 +356,37 @@ def set_seq_harness(variant, which):
 # ---------------------------------------------------------------------------
 
 
+def recover_row_clauses(pre, skey, d, a, b, n, rowkey, idx, elem, j1, j2, probes):
+    """The sentences about the rows recover_messages returns, over the result as a sequence (length n, key of row j =
+    rowkey(j) = (number, session, direction), element elem(j), position idx(number, session, direction) of a stored
+    message) - at two arbitrary indices j1, j2 and the probe keys.  Used by the harness on the real SQL body and, over
+    free functions, by the refinement lemma towards C06's boundary contract (journal_refinement.recover_refinement)."""
+    def wanted(k, sx, dx):
+        return And(pre.has_msg(k, sx, dx), Eq(sx, skey), Eq(dx, d), k >= a, k <= b)
+    cl = []
+    e1, _e2 = elem(j1), elem(j2)  # (elem(j) also instantiates the row-sequence facts at j)
+    k1 = rowkey(_t(j1))
+    k2 = rowkey(_t(j2))
+    in1 = And(j1 >= 0, j1 < n)
+    in2 = And(j2 >= 0, j2 < n)
+    # only its own session and direction, only numbers inside the range, bytes unchanged
+    cl.append(("recover.only_requested_rows",
+               Implies(in1, And(wanted(SInt(k1[0]), SInt(k1[1]), SInt(k1[2])),
+                                Eq(e1, pre.msg(SInt(k1[0]), SInt(k1[1]), SInt(k1[2])))))))
+    # ascending number order (strict: a number occurs once)
+    cl.append(("recover.ascending", Implies(And(in1, in2, j1 < j2), SInt(k1[0]) < SInt(k2[0]))))
+    # every stored message of the range is returned
+    for (k, sx, dx) in probes:
+        p = (_t(k), _t(sx), _t(dx))
+        pos = SInt(idx(*p))
+        kp = rowkey(pos.t)
+        # ... at a position of the result, as the row with exactly this key (not merely equal bytes)
+        cl.append(("recover.complete", Implies(wanted(k, sx, dx),
+                                               And(pos >= 0, pos < n, Eq(elem(pos), pre.msg(k, sx, dx)),
+                                                   SBool(z3.And(kp[0] == p[0], kp[1] == p[1], kp[2] == p[2]))))))
+    return cl
+
+
 def recover_harness(which, text_bounds=False):
     def harness(I):
         env = JEnv(I, existing=True)
@@ -386,23 +417,8 @@ def recover_harness(which, text_bounds=False):
         if isinstance(r, sm.RowSeq):
             n = r.n
             j1, j2 = c.inp_int("j1"), c.inp_int("j2")
-            e1, e2 = r.elem(j1), r.elem(j2)
             _, rowkey, idx = r.rs.as_seq()
-            k1 = rowkey(j1.t)
-            k2 = rowkey(j2.t)
-            in1 = And(j1 >= 0, j1 < n)
-            in2 = And(j2 >= 0, j2 < n)
-            # only its own session and direction, only numbers inside the range, bytes unchanged
-            cl.append(("recover.only_requested_rows",
-                       Implies(in1, And(wanted(SInt(k1[0]), SInt(k1[1]), SInt(k1[2])),
-                                        Eq(e1, pre.msg(SInt(k1[0]), SInt(k1[1]), SInt(k1[2])))))))
-            # ascending number order (strict: a number occurs once)
-            cl.append(("recover.ascending", Implies(And(in1, in2, j1 < j2), SInt(k1[0]) < SInt(k2[0]))))
-            # every stored message of the range is returned
-            for (k, sx, dx) in env.msg_probes():
-                p = (_t(k), _t(sx), _t(dx))
-                pos = SInt(idx(*p))
-                cl.append(("recover.complete", Implies(wanted(k, sx, dx), And(pos >= 0, pos < n, Eq(r.elem(pos), pre.msg(k, sx, dx))))))
+            cl += recover_row_clauses(pre, skey, d, a, b, n, rowkey, idx, r.elem, j1, j2, env.msg_probes())
             c.realism.append(n.t <= 2)
             r.rs.use_index(0)
             r.rs.use_index(1)
@@ -518,6 +534,8 @@ FUNCS = [JQ + ".__init__", JQ + ".create_or_load", JQ + ".sessions", JQ + ".find
 def _refinement(kind, *a):
     def h(I):
         import journal_refinement as jr
+        if kind == "recover":
+            return jr.recover_refinement(I)
         return jr.persist_refinement(I) if kind == "persist" else jr.set_refinement(*a)(I)
     return h
 
@@ -541,6 +559,7 @@ def make_tasks(which):
         Task("refinement[set_seq_num:out]", _refinement("set", True, False), Config, []),
         Task("refinement[set_seq_num:in]", _refinement("set", False, True), Config, []),
         Task("refinement[set_seq_num:none]", _refinement("set", False, False), Config, []),
+        Task("refinement[recover_messages]", _refinement("recover"), Config, []),
     ] if which == "c13" else []) + [
         Task("set_seq_num[out,in]", set_seq_harness((True, True), which), cfg, [JQ + ".set_seq_num"], native="journal"),
         Task("set_seq_num[out]", set_seq_harness((True, False), which), cfg, [JQ + ".set_seq_num"], native="journal"),
